@@ -287,5 +287,40 @@ def run(chk, tier):
             chk.violation("wrong source at run time %s" % c.meta["mode"], c.meta["src"], r.detail)
     chk.part("B_runtime_stable", programs=len(cases), bins_built=eng.bins_built, rounds=eng.rounds, build_s=round(eng.build_s, 1),
              note="layouts without a detected backtrace (a `provide` method needs nightly); field types: distinct error types, Box<dyn Error+Send+Sync>, generic T: Error")
+    # ---------------- seam B on nightly: layouts with a detected backtrace (their `provide` method needs an unstable feature)
+    if thorough:
+        ncases = []
+        for named, fields in layouts(3, with_bt=True):
+            if not any(f["ty"] == "bt" for f in fields) and not any("backtrace" in f["attr"] for f in fields):
+                continue
+            try:
+                wsrc, wbt = model(fields, named)
+            except Amb:
+                continue
+            if wbt is None:
+                continue
+            if fields[wbt]["ty"] != "bt":
+                continue  # `provide_ref::<Backtrace>` needs the detected field to really be a Backtrace
+            if wsrc is not None and fields[wsrc]["ty"] == "bt":
+                continue  # a Backtrace is not an Error: selecting it as the source is the user's mistake
+            if len(fields) == 3 and sum(1 for f in fields if f["attr"]) > 1:
+                continue
+            for container in ("struct", "enum"):
+                ncases.append(runtime_case("n%d" % len(ncases), named, fields, container, "plain", wsrc))
+        neng = CompileEngine("C09", prelude=PRELUDE, toolchain="nightly", crate_attrs="#![feature(error_generic_member_access)]\n", per_bin=max(8, len(ncases) // 16 + 1))
+        nres = neng.run_cases(ncases)
+        for c in ncases:
+            r = nres[c.cid]
+            chk.count(states=1, transitions=max(r.ncmp, 1))
+            if r.compile == "ok" and r.run == "ok":
+                chk.outcome("runtime-ok/backtrace-layout")
+                continue
+            chk.outcome("runtime-%s/%s/backtrace-layout" % (r.compile, r.run))
+            if r.compile != "ok":
+                msgs = sorted({re.sub(r"n\d+::", "", d["message"]) for d in r.diags})
+                chk.violation("compile-error backtrace layout: %s" % msgs[0][:80], c.meta["src"], "; ".join(msgs[:4]))
+            else:
+                chk.violation("wrong source at run time (backtrace layout)", c.meta["src"], r.detail)
+        chk.part("B_runtime_nightly", programs=len(ncases), bins_built=neng.bins_built, note="layouts with a detected backtrace, built with cargo +nightly and #![feature(error_generic_member_access)]")
     chk.assumptions += ["inference by field count uses all declared fields (an ignored field still counts towards 'sole field of a tuple type')",
                         "layouts with a detected backtrace are decided through the in-process expansion only (their `provide` method needs a nightly compiler)"]
